@@ -15,14 +15,14 @@ import (
 
 // Engine sim — C18: histories on tcell.NewSimulationScreen(charset).
 //
-// line:  sim cfg <ppppp|rrrrr|…> <charset> <enc table r=hex[!],…>; op; op; …
+// line:  sim cfg <pppppp|rrrrrr|…> <charset> <enc table r=hex[!],…>; op; op; …
 //   S x y main comb style | F r style | Y style (SetStyle) | C x y (ShowCursor) | W (Show) | N (Sync) | Z w h (SetSize)
 //   K key rune mod (InjectKey) | M x y buttons mod (InjectMouse) | B hex dectable (InjectKeyBytes → b:0|1)
 //   R r hex | U r (Register/UnregisterRuneFallback) | Q r flag (CanDisplay → q:0|1)
 //   G (observe GetContents + GetCursor) | P (observe the events polled so far) | T (observe Size())
 // reply: observations in order, then "H <GetContents/GetCursor> ev=<remaining events>".
 // The enc table and the dec tables carry what the charset's encoder/decoder report when called directly (they are the
-// function values the Lean model is evaluated with); the five letters say on which side of the known defect sites
+// function values the Lean model is evaluated with); the letters (five, or six: the sixth is the Fill variant, see fillZWSuffix in cb.go) say on which side of the known defect sites
 // (InjectKeyBytes `l < len(b)`, U+FFFD prefixes consumed, SetSize without resize event, last-column cell left dirty,
 // combining fallback not elided) the tree under test is, found by probing.
 //
@@ -628,7 +628,7 @@ func (s *simRun) judgeBytes(b []byte, ok bool, evs []string) {
 func simVariant() (v string) {
 	defer func() {
 		if recover() != nil {
-			for len(v) < 5 {
+			for len(v) < 6 {
 				v += "p"
 			}
 		}
@@ -697,6 +697,12 @@ func simVariant() (v string) {
 		v += "p"
 	}
 	e.Fini()
+	// sixth letter: CellBuffer.Fill stores width 0 for a zero-width rune (fixes/C09-fill-zero-width.patch)
+	if fillZWSuffix() != "" {
+		v += "r"
+	} else {
+		v += "p"
+	}
 	return v
 }
 
